@@ -77,7 +77,7 @@ HARNESSES = [
                 for i, k in enumerate(("dir", "slink", "link", "nod", "pipe", "sock", "file", "glob"))] +
                [dict(id="nod_b", defines={"KW": 3, "NODTYPE": '"b"'}, tier="quick")]),
     dict(name="mknode", file="mknode.c", label="bounded(name length 2, extra length 3)",
-         unwind=8, timeout=300, nochecks=["--conversion-check"],  # the narrowing is the named obligation .ids
+         unwind=8, timeout=900, nochecks=["--conversion-check"],  # the narrowing is the named obligation .ids
          cases=[dict(id=k, defines={"KIND": i}, tier="quick")
                 for i, k in enumerate(("dir", "reg", "slink", "hardlink", "blk", "chr", "fifo", "sock"))]),
     # sqfs_id_table_id_to_index: w6's parametrised harness (harness/C03/ids_index.c) with the
